@@ -31,6 +31,7 @@ def crash_ops(alpha, tier):
         ("get", ("cmp", "tags", ("a",), "==", x), None),                     # early-stopping read
         ("len",),                                                            # would populate a length cache
         ("reopen",),                                                         # close (its I/O can fail too) + open
+        ("reopen", "with"),                                                  # the same through the context manager
     ]
     if tier != "quick":
         ops += [
